@@ -18,62 +18,22 @@
 (*   weight; each of the three collections contains a minimum cycle basis; *)
 (*   LinkTargetsExist: the fallback lookup is never taken.                 *)
 (***************************************************************************)
-EXTENDS LexOps
+EXTENDS CollOps
 CONSTANTS N, WS
 VARIABLES G
 Init == G \in AllSimple(N, WS)
 Next == UNCHANGED G
 
-T(x) == CanonTree(G, x)
-Trees == [x \in V(G) |-> T(x)]
-FirstOf(tr, x, v) == tr[x].first[v + 1]
-PredOf(tr, x, v) == tr[x].pred[v + 1]
-Reach(tr, x, v) == tr[x].dist[v + 1] # -1
-IsCand(tr, x, e) == /\ Reach(tr, x, Src(G, e)) /\ Reach(tr, x, Dst(G, e))
-                    /\ PredOf(tr, x, Src(G, e)) # e /\ PredOf(tr, x, Dst(G, e)) # e
-                    /\ FirstOf(tr, x, Src(G, e)) # FirstOf(tr, x, Dst(G, e))
-\* candidates in construction order: trees in vertex order, edges in edge order
-HortonSeq(tr) == LET pairs == {<<x, e>> \in V(G) \X EIdx(G) : IsCand(tr, x, e)}
-                 IN SetToSortSeq(pairs, LAMBDA a, b : a[1] < b[1] \/ (a[1] = b[1] /\ a[2] <= b[2]))
-CycleOf(tr, c) == TreePath(G, tr[c[1]], Src(G, c[2])) \cup TreePath(G, tr[c[1]], Dst(G, c[2])) \cup {c[2]}
-
-\* the linking rule of ISOCyclesBuilder for candidate c = <<x, e>>: the candidate it is linked to, or "bad"
-LinkOf(tr, c) ==
-  LET x == c[1]
-      e == c[2]
-      u == Src(G, e)
-      v == Dst(G, e)
-  IN IF x = u THEN [bad |-> FALSE, to |-> <<v, e>>]
-     ELSE LET xp == FirstOf(tr, x, u) IN
-          IF x = FirstOf(tr, xp, v) THEN [bad |-> FALSE, to |-> <<xp, e>>]
-          ELSE IF u = FirstOf(tr, v, xp) THEN [bad |-> FALSE, to |-> <<v, PredOf(tr, x, xp)>>]
-          ELSE [bad |-> TRUE, to |-> c]
-IsoOut(tr) ==
-  LET H == HortonSeq(tr)
-      Hs == {H[i] : i \in 1..Len(H)}
-      tgt(c) == LET lk == LinkOf(tr, c) IN IF lk.bad THEN c ELSE IF lk.to \in Hs THEN lk.to ELSE H[1]
-      adj == {<<c, tgt(c)>> : c \in Hs}
-      \* connected components by label propagation over the candidate indices
-      lab == FoldSet(LAMBDA p, f : LET a == f[p[1]] b == f[p[2]] IN
-                        IF a = b THEN f ELSE TLCEval([c \in Hs |-> IF f[c] = b THEN a ELSE f[c]]),
-                     TLCEval([c \in Hs |-> c]), adj)
-      badclass == {lab[c] : c \in {d \in Hs : LinkOf(tr, d).bad}}
-      good == {c \in Hs : lab[c] \notin badclass}
-  IN {c \in good : \A d \in good : lab[d] = lab[c] =>
-          (CHOOSE i \in 1..Len(H) : H[i] = c) <= (CHOOSE i \in 1..Len(H) : H[i] = d)}
-LinkTargetsExist ==
-  LET tr == Trees
-      H == HortonSeq(tr)
-      Hs == {H[i] : i \in 1..Len(H)}
-  IN \A c \in Hs : LinkOf(tr, c).bad \/ LinkOf(tr, c).to \in Hs
-
+Trees == TreesOf(G)
+HortonSeqM(tr) == HortonSeq(G, tr)
 Sound == LET tr == Trees
-             H == HortonSeq(tr)
-         IN \A i \in 1..Len(H) : LET C == CycleOf(tr, H[i]) IN IsSimpleCycle(G, C) /\ Deg(G, C, H[i][1]) = 2
-Suff(cands, tr) == LET gr == Greedy(G, {CycleOf(tr, c) : c \in cands}) IN gr.d = Dim(G) /\ gr.w = OptBrute(G).w
-HortonSufficient == LET tr == Trees H == HortonSeq(tr) IN Suff({H[i] : i \in 1..Len(H)}, tr)
+             H == HortonSeq(G, tr)
+         IN \A i \in 1..Len(H) : LET C == CycleOf(G, tr, H[i]) IN IsSimpleCycle(G, C) /\ Deg(G, C, H[i][1]) = 2
+Suff(cands, tr) == LET gr == Greedy(G, {CycleOf(G, tr, c) : c \in cands}) IN gr.d = Dim(G) /\ gr.w = OptBrute(G).w
+HortonSufficient == LET tr == Trees H == HortonSeq(G, tr) IN Suff({H[i] : i \in 1..Len(H)}, tr)
 IsFvs(F) == IsForest(G, {e \in EIdx(G) : Src(G, e) \notin F /\ Dst(G, e) \notin F})
-FvsSufficient == LET tr == Trees H == HortonSeq(tr) IN
+FvsSufficient == LET tr == Trees H == HortonSeq(G, tr) IN
                  \A F \in SUBSET V(G) : IsFvs(F) => Suff({H[i] : i \in {j \in 1..Len(H) : H[j][1] \in F}}, tr)
-IsoSufficient == LET tr == Trees IN Suff(IsoOut(tr), tr)
+LinkTargetsExist == LinkTargetsExistG(G)
+IsoSufficient == LET tr == Trees IN Suff(IsoOut(G, tr), tr)
 =============================================================================
